@@ -157,3 +157,37 @@ func (t *T) BadObserverMethodValue() int {
 	f()
 	return t.n
 }
+
+// Controls for ADOPT.
+
+type holder struct{ data []int }
+
+func adopt(xs []int) *holder { return &holder{data: xs} }
+
+// BadAdoptWindows carves all values out of one slab.
+func BadAdoptWindows(k int) []*holder {
+	slab := make([]int, 4*k)
+	var out []*holder
+	for i := 0; i < k; i++ {
+		out = append(out, adopt(slab[:4]))
+		slab = slab[4:]
+	}
+	return out
+}
+
+// GoodAdoptFresh gives each value its own array.
+func GoodAdoptFresh(k int) []*holder {
+	var out []*holder
+	for i := 0; i < k; i++ {
+		out = append(out, adopt(make([]int, 4)))
+	}
+	return out
+}
+
+// NewBadSortingHolder sorts the caller's slice in place while building its value.
+func NewBadSortingHolder(xs []int) *holder {
+	sort.Ints(xs)
+	c := make([]int, len(xs))
+	copy(c, xs)
+	return &holder{data: c}
+}
